@@ -59,5 +59,11 @@ func init() {
 		e.Flush()
 		q, err := e.Queue(capacity, ie, id, def)
 		return q, func() {}, err
+	}, Reopen: func(capacity int, ie time.Duration, id string, def queue.Notifier) (queue.Store, error) {
+		e, err := sharedEnv()
+		if err != nil {
+			return nil, err
+		}
+		return e.Queue(capacity, ie, id, def)
 	}})
 }
